@@ -111,7 +111,9 @@ CHECKS = {
        "without USE gets exactly its host's answer; `USE m[, ONLY: ..., local => remote]` of a module that uses nothing resolves as Fortran says. "
        "The full statement is refuted on the faithful model by two vm_compute witnesses, which are replayed on the implementation on every run "
        "(known findings). Re-export chains, shadowing depth and accessibility combinations are covered by the differential: the model and the "
-       "generator's Fortran ground truth against textDocument/definition on generated multi-file workspaces.",
+       "generator's Fortran ground truth against textDocument/definition on generated multi-file workspaces. Components through `%`: the member list "
+       "a type builds from its EXTENDS chain (own children, then inherited ones not redeclared) is modelled (C05/Inherit.v, validated against "
+       "Type.get_children) and the component found for obj%name is proved to be the nearest declaration up the chain, for every type table.",
   note="Partial. Trusted: Coq kernel, vm_compute, generator ground truth. Fragment: variables, modules, a program with a contained procedure; no #GEN_INT, "
        "INCLUDE, IMPORT, submodules, % chains. Known findings: C05:rename-lost-diamond, C05:private-reexport.",
   technique="Rocq proof over a transcription of the resolution functions (accessibility invariant for all programs; fragment correctness; refutation witnesses) + differential with generated ground truth + annotated catalogue (%-chains through EXTENDS, submodules, type-bound) re-queried after saves",
